@@ -68,7 +68,12 @@ fn initial_values(w: u8) -> Vec<(String, Option<u128>)> {
 
 /// Run one operation sequence (ops as base-6 digits) against a fresh sender.
 fn run_sequence(w: u8, init_name: &str, init: Option<u128>, ops: &[u8], out: &mut Vec<Violation>) -> (u64, u64) {
+    run_sequence_tsi(w, 1, init_name, init, ops, out)
+}
+
+fn run_sequence_tsi(w: u8, tsi: u64, init_name: &str, init: Option<u128>, ops: &[u8], out: &mut Vec<Violation>) -> (u64, u64) {
     let mut spec = SenderSpec::new(OtiSpec::new(Fec::NoCode, 1400, 8, 0));
+    spec.tsi = tsi;
     spec.toi_bits = w;
     spec.toi_initial = init;
     let mut trace: Vec<String> = vec![];
@@ -338,7 +343,7 @@ fn main() {
     let prop = Property {
         id: "C15",
         level: "exploration",
-        rule: "reference set model (Live) checked after every operation: (sequences) ALL operation sequences over {allocate, drop oldest handle, drop newest handle, add object with handle, add object implicitly, publish+drain until the objects are gone} up to depth d (6 quick, 8 thorough) for each TOI width 16..112 and initial values {1, 0, max-2, max-1, max, 2^w, u128::MAX, random default}; wire and FDT TOIs compared with the allocated values through the independent decoder; (wrap) 70 000 allocations across the 16-bit wrap with a sliding window of live handles and with all but a few values live; (threads) 2-8 real threads allocating through Arc<Mutex<Sender>> and dropping handles (moved between threads) without the lock, merged log ordered by a global sequence counter with call/return events; Send/Sync claims asserted at compile time; a case is one batch of sequences, non-trivial when allocations were observed; distinct = (width, initial, batch)",
+        rule: "reference set model (Live) checked after every operation: (sequences) ALL operation sequences over {allocate, drop oldest handle, drop newest handle, add object with handle, add object implicitly, publish+drain until the objects are gone} up to depth d (6 quick, 8 thorough) for each TOI width 16..112 and initial values {1, 0, max-2, max-1, max, 2^w, u128::MAX, random default}; wire and FDT TOIs compared with the allocated values through the independent decoder; (inner_boundaries) allocation histories started 0-3 values before every inner 16-bit boundary 2^k < 2^w of the width, for five TSI values covering the TSI field classes, every allocated value attached, transmitted and compared on the wire and in the FDT; (wrap) 70 000 allocations across the 16-bit wrap with a sliding window of live handles and with all but a few values live; (threads) 2-8 real threads allocating through Arc<Mutex<Sender>> and dropping handles (moved between threads) without the lock, merged log ordered by a global sequence counter with call/return events; Send/Sync claims asserted at compile time; a case is one batch of sequences, non-trivial when allocations were observed; distinct = (width, initial, batch)",
         assumptions: vec![
             "a handle drop is effective somewhere inside its call/return interval: reuse is only flagged when an allocation lies entirely inside the definitely-live interval of the same value".into(),
             "TOI 0 handles created internally for FDTs are not modelled".into(),
@@ -386,6 +391,50 @@ fn main() {
             cr.states = vec![util::fnv(&format!("{}|{}", w, iname))];
             if c == 0 {
                 cr.sample = Some(json!({"width": w, "initial": iname, "depth": depth, "sequences": CH.min(total), "allocations": na}));
+            }
+            limit(&mut cr.violations, 2);
+            cr
+        }));
+        // ---- allocation histories that walk across every inner 16-bit boundary of the configured width: the
+        // values 2^k-2 .. 2^k+1 (k = 16, 32, .. < w) are the ones where the width of the TOI field on the wire
+        // changes; each is allocated, attached, transmitted and compared, for the three TSI field classes
+        let mut bplan: Vec<(u8, u32, u64)> = vec![];
+        for w in WIDTHS {
+            for k in (16..w as u32).step_by(16) {
+                for tsi in [1u64, 0x1_0000, 0xFFFF_FFFF, 0x1_0000_0000, 0xFFFF_FFFF_FFFF] {
+                    bplan.push((w, k, tsi));
+                }
+            }
+        }
+        let nb = bplan.len();
+        gens.push(Gen::new("inner_boundaries", nb * 4, move |_ctx, i| {
+            let (w, k, tsi) = bplan[i % nb];
+            let back = (i / nb) as u128; // the allocator starts `back` values before 2^k
+            let init = (1u128 << k) - back;
+            let iname = format!("2^{}-{}", k, back);
+            let mut cr = CaseResult::default();
+            let (mut na, mut np) = (0, 0);
+            // histories: allocate+attach one by one; allocate several, drop some, attach the rest; implicit only
+            let histories: [&[u8]; 5] = [
+                &[0, 3, 5, 0, 3, 5, 0, 3, 5, 0, 3, 5, 0, 3, 5],
+                &[0, 0, 0, 0, 0, 3, 3, 3, 3, 3, 5],
+                &[0, 0, 0, 1, 3, 2, 0, 0, 3, 3, 5],
+                &[4, 4, 4, 4, 4, 5],
+                &[0, 1, 0, 1, 0, 3, 5, 4, 5, 0, 3, 5],
+            ];
+            for h in histories {
+                let (a, p) = run_sequence_tsi(w, tsi, &iname, Some(init), h, &mut cr.violations);
+                na += a;
+                np += p;
+            }
+            cr.count("allocations", na);
+            cr.count("packets_compared", np);
+            if na > 0 && np > 0 {
+                cr.shape = Some(util::fnv(&format!("b|{}|{}|{}|{}", w, k, tsi, back)));
+            }
+            cr.states = vec![util::fnv(&format!("b|{}|{}", w, k))];
+            if i % 37 == 0 {
+                cr.sample = Some(json!({"width": w, "first_value": iname, "tsi": tsi, "histories": histories.len(), "allocations": na, "packets_compared": np}));
             }
             limit(&mut cr.violations, 2);
             cr
